@@ -1,7 +1,8 @@
 (* C15 — correspondence: the harness records, for the same op list, what the real service did. *)
-From Coq Require Import List NArith ZArith Bool.
+From Coq Require Import List NArith ZArith Bool String.
 Import ListNotations.
 From VF Require Export C15.Model.
+From VF Require Export common.Json C15.Full C15.Codec.
 
 Definition pout_eqb (a b : pout) : bool :=
   match a, b with
@@ -55,9 +56,100 @@ Definition check_conc (k : conc) : bool :=
   (lin2 s (k_a k) (k_b k) (k_xa k) (k_xb k) (k_snap_a k) (k_snap_b k)
    || lin2 s (k_b k) (k_a k) (k_xb k) (k_xa k) (k_snap_b k) (k_snap_a k)).
 
-Inductive xcase := Seq (c : case) | Conc (k : conc).
+(* ---------- wave 5: the document-level model (Full.v) and the codec (Codec.v) ---------- *)
+
+Fixpoint nlist_eqb (a b : list N) : bool :=
+  match a, b with [], [] => true | x :: r, y :: t => N.eqb x y && nlist_eqb r t | _, _ => false end.
+Definition optn_eqb (a b : option N) : bool :=
+  match a, b with None, None => true | Some x, Some y => N.eqb x y | _, _ => false end.
+
+Definition mfield_eqb (a b : mfield) : bool :=
+  match a, b with MNull, MNull | MBad, MBad => true | MList x, MList y => nlist_eqb x y | _, _ => false end.
+Definition sdoc_eqb (a b : sdoc) : bool :=
+  match a, b with
+  | DGarbage, DGarbage | DNull, DNull => true
+  | DDoc c f, DDoc c' f' => Z.eqb c c' && mfield_eqb f f'
+  | _, _ => false
+  end.
+
+Definition fout_eqb (a b : fout) : bool :=
+  match a, b with
+  | XAdded, XAdded | XErr, XErr | XNone, XNone | XPanic, XPanic => true
+  | XStatus ok to from id pth c, XStatus ok' to' from' id' pth' c' =>
+      Bool.eqb ok ok' && N.eqb to to' && N.eqb from from' && N.eqb id id' && optn_eqb pth pth' && Z.eqb c c'
+  | XBatch ok to from id ms, XBatch ok' to' from' id' ms' =>
+      Bool.eqb ok ok' && N.eqb to to' && N.eqb from from' && N.eqb id id' && nlist_eqb ms ms'
+  | _, _ => false
+  end.
+
+(* what the harness read back from the raw store: nothing / a document it classified itself (bulk cases) /
+   the JSON tree of the stored bytes, None when they are not JSON (codec cases: Coq does the classification) *)
+Inductive snap := SNo | SDoc (x : sdoc) | STree (t : option json).
+
+Definition snap_doc (tab : list (string * msg)) (sn : snap) : option sdoc :=
+  match sn with SNo => None | SDoc x => Some x | STree t => Some (abs_tree tab t) end.
+
+Definition osdoc_eqb (a b : option sdoc) : bool :=
+  match a, b with None, None => true | Some x, Some y => sdoc_eqb x y | _, _ => false end.
+
+(* a document the service wrote itself must be reproduced by the encoder of the model, member by member *)
+Definition snap_reencodes (sn : snap) : bool :=
+  match sn with STree (Some j) => reencodes j | STree None => false | _ => true end.
+
+Record fcase := { fc_tab : list (string * msg);           (* base64 text of each payload handed to AddMessage -> its number *)
+                  fc_init : list (did * snap);             (* documents planted in the store before the history *)
+                  fc_ops : list fop;
+                  fc_obs : list (fout * snap) }.
+
+Fixpoint init_store (tab : list (string * msg)) (init : list (did * snap)) : fstore :=
+  match init with
+  | [] => []
+  | (d, sn) :: r => match snap_doc tab sn with Some x => put_doc (init_store tab r) d x | None => init_store tab r end
+  end.
+
+Fixpoint fcheck_from (tab : list (string * msg)) (strict : bool) (s : fstore) (ops : list fop) (obs : list (fout * snap)) : bool :=
+  match ops, obs with
+  | [], [] => true
+  | o :: r, (x, sn) :: t =>
+      let '(s1, y) := fstep s o in
+      fout_eqb x y && osdoc_eqb (snap_doc tab sn) (doc_of s1 (fop_did o))
+      && (negb strict || snap_reencodes sn) && fcheck_from tab strict s1 r t
+  | _, _ => false
+  end.
+
+Definition check_fcase (c : fcase) : bool :=
+  fcheck_from (fc_tab c) (match fc_init c with [] => true | _ => false end)
+              (init_store (fc_tab c) (fc_init c)) (fc_ops c) (fc_obs c).
+
+(* n operations forced to overlap (wave 5: three): some sequential order of them explains every output and
+   the documents read back at the end *)
+Fixpoint inserts {A} (x : A) (l : list A) : list (list A) :=
+  match l with [] => [[x]] | y :: r => (x :: y :: r) :: map (cons y) (inserts x r) end.
+Fixpoint perms {A} (l : list A) : list (list A) :=
+  match l with [] => [[]] | x :: r => flat_map (inserts x) (perms r) end.
+
+Fixpoint fstate_after (s : fstore) (ops : list fop) : fstore :=
+  match ops with [] => s | o :: r => fstate_after (fst (fstep s o)) r end.
+
+Fixpoint lin_outs (s : fstore) (l : list (fop * fout * snap)) : bool * fstore :=
+  match l with
+  | [] => (true, s)
+  | (o, x, _) :: r => let '(s1, y) := fstep s o in let '(b, s2) := lin_outs s1 r in (fout_eqb x y && b, s2)
+  end.
+
+Definition linn (s : fstore) (l : list (fop * fout * snap)) : bool :=
+  let '(b, s2) := lin_outs s l in
+  b && forallb (fun t => match t with (o, _, sn) => osdoc_eqb (snap_doc [] sn) (doc_of s2 (fop_did o)) end) l.
+
+Record concn := { kn_pre : list fop; kn_pre_obs : list (fout * snap); kn_par : list (fop * fout * snap) }.
+
+Definition check_concn (k : concn) : bool :=
+  fcheck_from [] false [] (kn_pre k) (kn_pre_obs k) &&
+  existsb (linn (fstate_after [] (kn_pre k))) (perms (kn_par k)).
+
+Inductive xcase := Seq (c : case) | Conc (k : conc) | FSeq (c : fcase) | ConcN (k : concn).
 Definition check_xcase (x : xcase) : bool :=
-  match x with Seq c => check_case c | Conc k => check_conc k end.
+  match x with Seq c => check_case c | Conc k => check_conc k | FSeq c => check_fcase c | ConcN k => check_concn k end.
 
 Fixpoint mismatches_from (i : nat) (cs : list xcase) : list nat :=
   match cs with
